@@ -4,6 +4,7 @@
   the optimum), and a sweep without update certifies a 1-opt local optimum.
 -/
 import AITB.Props.C13Table
+import AITB.Model.MaxPlus
 
 namespace AITB.VE
 open AITB.Factored
@@ -227,5 +228,119 @@ theorem mp_claims (A : List Nat) (struct rules : List Rule) (cands : List (List 
 example :
     lsResult [2,3,2,2] (lsGraph [2,3,2,2] [⟨[0,1],[1,2],-3/2⟩, ⟨[1],[2],2⟩, ⟨[0,1],[1,2],1/4⟩, ⟨[3],[0],-1/2⟩, ⟨[0,1,3],[0,0,1],5/4⟩])
       [[3,1,0,2],[0,1,2,3]] [0,0,0,0] = ([0,2,0,1], 2) := by decide +kernel
+
+/-! ### MaxPlus message passing and the RILS trial loop as such (no oracle left) -/
+
+theorem getD_pos_of_mem (A : List Nat) (hA : ∀ d ∈ A, 0 < d) (u : Nat) (hu : u < A.length) :
+    0 < A.getD u 0 ∧ A.getD u 1 = A.getD u 0 := by
+  have : A.getD u 0 = A[u] := by simp [List.getD_eq_getElem?_getD, List.getElem?_eq_getElem hu]
+  have h1 : A.getD u 1 = A[u] := by simp [List.getD_eq_getElem?_getD, List.getElem?_eq_getElem hu]
+  rw [this, h1]; exact ⟨hA _ (List.getElem_mem hu), rfl⟩
+
+/-- every joint action proposed by the message passing is in range (arg-max over the `A[a]` columns of the bottom row) -/
+theorem mpAction_valid (A : List Nat) (hA : ∀ d ∈ A, 0 < d) (ms : List AMsg) : Valid A (mpAction A ms) := by
+  apply valid_listOf A (fun a => argmaxTo (A.getD a 1 - 1) (fun j => (getMsg ms a).bottom.getD j 0))
+  intro u hu
+  obtain ⟨hp, he⟩ := getD_pos_of_mem A hA u hu
+  have := argmaxTo_le (A.getD u 1 - 1) (fun j => (getMsg ms u).bottom.getD j 0)
+  show argmaxTo (A.getD u 1 - 1) (fun j => (getMsg ms u).bottom.getD j 0) < A.getD u 0
+  omega
+
+theorem mpCandsFrom_valid (A : List Nat) (g : List Node) (hA : ∀ d ∈ A, 0 < d) : ∀ (it : Nat) (ms : List AMsg),
+    ∀ c ∈ mpCandsFrom A g it ms, Valid A c
+  | 0, _, c, h => by simp [mpCandsFrom] at h
+  | it+1, ms, c, h => by
+    simp only [mpCandsFrom, List.mem_cons] at h
+    rcases h with rfl | h
+    · exact mpAction_valid A hA _
+    · exact mpCandsFrom_valid A g hA it _ c h
+
+/-- **MaxPlus (the message passing itself, any number of iterations) returns what it claims**: in-range action, reported
+    value = its true total payoff, never above the optimum — also on a graph reused with a later rule set -/
+theorem maxplus_claims (A : List Nat) (struct rules : List Rule) (iters : Nat)
+    (hA : ∀ d ∈ A, 0 < d) (hwf : ∀ r ∈ rules, r.WF A) (hsub : ∀ r ∈ rules, ∃ s ∈ struct, s.keys = r.keys) :
+    let g := lsUpdate A rules (lsMake A struct [])
+    let r := mpFull A g iters
+    Valid A r.1 ∧ r.2 = payoffL rules r.1 ∧ r.2 ≤ bruteMax A rules :=
+  mp_claims A struct rules _ hA hwf hsub (mpCandsFrom_valid A _ hA iters _)
+
+theorem setAt_ge : ∀ (a : List Nat) (v k : Nat), a.length ≤ v → setAt a v k = a
+  | [], _, _, _ => rfl
+  | x :: xs, 0, k, h => by simp at h
+  | x :: xs, v+1, k, h => by simp [setAt, setAt_ge xs v k (by simpa using h)]
+
+theorem randomAct_valid (A : List Nat) (hA : ∀ d ∈ A, 0 < d) (raw : List Nat) : Valid A (randomAct A raw) := by
+  apply valid_listOf A (fun a => raw.getD a 0 % A.getD a 1)
+  intro u hu
+  obtain ⟨hp, he⟩ := getD_pos_of_mem A hA u hu
+  show raw.getD u 0 % A.getD u 1 < A.getD u 0
+  rw [he]; exact Nat.mod_lt _ hp
+
+theorem perturbKeys_valid (A : List Nat) (hA : ∀ d ∈ A, 0 < d) : ∀ (ks ds a : List Nat), Valid A a → Valid A (perturbKeys A ks ds a)
+  | [], _, _, h => h
+  | k :: ks, ds, a, h => by
+    simp only [perturbKeys]
+    apply perturbKeys_valid A hA ks _ _
+    by_cases hk : k < A.length
+    · obtain ⟨hp, he⟩ := getD_pos_of_mem A hA k hk
+      exact valid_setAt A a k _ h (by rw [he]; exact Nat.mod_lt _ hp) hk
+    · rw [setAt_ge a k _ (by rw [valid_len A a h]; omega)]; exact h
+
+theorem perturb_valid (A : List Nat) (hA : ∀ d ∈ A, 0 < d) : ∀ (g : List Node) (ps : List Bool) (ds : List (List Nat)) (a : List Nat),
+    Valid A a → Valid A (perturb A g ps ds a)
+  | [], _, _, _, h => h
+  | nd :: g, ps, ds, a, h => by
+    simp only [perturb]
+    apply perturb_valid A hA g _ _ _
+    split
+    · exact perturbKeys_valid A hA _ _ _ h
+    · exact h
+
+theorem rilsLoop_truthful (A : List Nat) (g : List Node) (hA : ∀ d ∈ A, 0 < d) : ∀ (trials : List RTrial) (st : List Nat × Rat),
+    (∀ t ∈ trials, ∀ o ∈ t.orders, ∀ v ∈ o, v < A.length) → Truthful A g st → Truthful A g (rilsLoop A g trials st)
+  | [], _, _, h => h
+  | t :: ts, st, ho, h => by
+    have hts : ∀ t' ∈ ts, ∀ o ∈ t'.orders, ∀ v ∈ o, v < A.length := fun t' h' => ho t' (List.mem_cons_of_mem _ h')
+    have hs : Valid A (if t.reset then randomAct A t.restart else perturb A g t.pick t.draws st.1) := by
+      split
+      · exact randomAct_valid A hA _
+      · exact perturb_valid A hA g _ _ _ h.1
+    have key : ∀ s, Valid A s → Truthful A g (if s == st.1 then rilsLoop A g ts st else
+        rilsLoop A g ts (if st.2 < (lsResult A g t.orders s).2 then lsResult A g t.orders s else st)) := by
+      intro s hsv
+      split
+      · exact rilsLoop_truthful A g hA ts st hts h
+      · apply rilsLoop_truthful A g hA ts _ hts
+        have hr := lsResult_truthful A g hA t.orders s (ho t (List.mem_cons_self ..)) hsv
+        split
+        · exact hr
+        · exact h
+    exact key _ hs
+
+/-- **ReusingIterativeLocalSearch (restarts, factor perturbations and the nested LocalSearch all modelled; every random
+    draw an arbitrary input) returns what it claims** — first call or reuse of the stored action on an updated graph -/
+theorem rils_full_claims (A : List Nat) (struct rules : List Rule) (reuse : Option (List Nat))
+    (firstRaw : List Nat) (firstOrders : List (List Nat)) (trials : List RTrial)
+    (hA : ∀ d ∈ A, 0 < d) (hwf : ∀ r ∈ rules, r.WF A) (hsub : ∀ r ∈ rules, ∃ s ∈ struct, s.keys = r.keys)
+    (hreuse : ∀ a, reuse = some a → Valid A a)
+    (hfo : ∀ o ∈ firstOrders, ∀ v ∈ o, v < A.length)
+    (hto : ∀ t ∈ trials, ∀ o ∈ t.orders, ∀ v ∈ o, v < A.length) :
+    let g := lsUpdate A rules (lsMake A struct [])
+    let r := rilsFull A g reuse firstRaw firstOrders trials
+    Valid A r.1 ∧ r.2 = payoffL rules r.1 ∧ r.2 ≤ bruteMax A rules := by
+  intro g r
+  have ht : Truthful A g r := by
+    show Truthful A g (rilsFull A g reuse firstRaw firstOrders trials)
+    unfold rilsFull
+    cases reuse with
+    | some a =>
+      show Truthful A g (rilsLoop A g trials (a, evalGraph A a g))
+      exact rilsLoop_truthful A g hA trials _ hto ⟨hreuse a rfl, rfl⟩
+    | none =>
+      show Truthful A g (rilsLoop A g trials (lsResult A g firstOrders (randomAct A firstRaw)))
+      have h0 := lsResult_truthful A g hA firstOrders _ hfo (randomAct_valid A hA firstRaw)
+      exact rilsLoop_truthful A g hA trials _ hto h0
+  have he := evalGraph_reuse A struct rules r.1 hwf ht.1 hsub
+  exact ⟨ht.1, by rw [ht.2]; exact he, by rw [ht.2, he]; exact bruteMax_ge A rules _ ht.1⟩
 
 end AITB.VE
